@@ -790,8 +790,11 @@ pub fn run_property(prop: &'static dyn Property, tier: Tier) -> i32 {
             .unwrap();
         handles.push(h);
     }
+    let mut lost_shards = 0;
     for h in handles {
-        let _ = h.join();
+        if h.join().is_err() {
+            lost_shards += 1;
+        }
     }
 
     // ---- report
@@ -856,6 +859,12 @@ pub fn run_property(prop: &'static dyn Property, tier: Tier) -> i32 {
     } else {
         0.0
     };
+    if exit == 0 && lost_shards > 0 {
+        // a shard thread of the driver itself panicked (e.g. the worker binary could not be
+        // started): its cases were not run, so the run decides nothing
+        println!("INCONCLUSIVE property={} {} driver shard(s) lost", id, lost_shards);
+        exit = 2;
+    }
     if exit == 0 && (st.cases == 0 || frac_inconclusive > 0.05) {
         println!(
             "INCONCLUSIVE property={} cases={} inconclusive={} notes={:?}",
